@@ -106,6 +106,7 @@ def run(tier: str, seed: int) -> int:
 
     # ---- relational replays on the real SSMs: superset reproduces subset at shared checkpoints
     _numeric(rep, tier, seed)
+    _terminal_equals_last_entry(rep, tier)
     rep.assumptions = [
         "equality of terms stands for equality of distributions; the composition law of transitions used by the term normal form is decided numerically under C09",
         "the relational float replays are sampled (1e-7 relative on means/stds, step counts and scales exactly)",
@@ -151,3 +152,34 @@ def _numeric(rep, tier, seed):
                     scB = realruns.flat(solB.output_scale)
                     if sv == "mle" and realruns.rel(scA[-1:], scB[-1:]) > 1e-12:
                         rep.violation(f"impl:numeric-pair:{strat}:{sv}:output_scale", f"{prob}/{ssm_name}: calibrated scales differ", {})
+
+
+def _terminal_equals_last_entry(rep, tier):
+    """real SSMs, real error estimator, atol != rtol: the terminal-value routine equals the last entry of the checkpointed routine"""
+    import warnings
+
+    import jax.numpy as jnp
+
+    from probdiffeq import ivpsolve
+    from probdiffeq import probdiffeq as pdq
+
+    combos = [("logistic", "dense", "ts1", "mle", "filter"), ("logistic", "iso", "ts0", "dynamic", "fixedpoint"), ("vdp2", "bd", "ts0", "solver", "fixedpoint")]
+    for prob, ssm_name, ts, sv, strat in combos:
+        ssm, ode, prior, constraint = realruns.setup(prob, ssm_name, 3 if prob == "logistic" else 2, ts=ts)
+        solver = realruns.make_solver(sv, strat, constraint)
+        err = pdq.error_residual_std(constraint=constraint)
+        kw = dict(atol=1e-7, rtol=1e-3, dt0=0.05)
+        with warnings.catch_warnings():
+            warnings.simplefilter("ignore")
+            term = ivpsolve.solve_adaptive_terminal_values(solver=solver, error=err, clip_dt=False)(prior, t0=0.0, t1=1.0, **kw)
+            full = ivpsolve.solve_adaptive_save_at(solver=solver, error=err, clip_dt=False)(prior, save_at=jnp.asarray([0.0, 0.3, 0.55, 1.0]), **kw)
+        rep.traces += 1
+        rep.add_case(("terminal-vs-last", prob, ssm_name, sv, strat))
+        key = f"impl:numeric-terminal:{strat}:{sv}:{ssm_name}"
+        if int(np.asarray(term.num_steps)) != int(np.asarray(full.num_steps)[-1]):
+            rep.violation(key + ":num_steps", f"terminal-value routine took {int(np.asarray(term.num_steps))} steps, the checkpointed routine {int(np.asarray(full.num_steps)[-1])}", {})
+            continue
+        a = realruns.flat(term.u.mean)
+        b = realruns.flat(realruns.take(full.u.mean, [-1]))
+        if realruns.rel(a, b) > 1e-9:
+            rep.violation(key + ":mean", f"terminal value differs from the last checkpoint entry by {realruns.rel(a, b):.2e}", {})
